@@ -433,10 +433,11 @@ func check(c Case) error {
 					return vk.Harnessf("marshal: %v", err)
 				}
 				res = codon.ParseCodonJSON(b)
+				vk.Scribble(b)
 			} else {
 				p := filepath.Join(vk.WorkDir(), "table.json")
 				vk.StaleFile(p, 40000)
-				codon.WriteCodonJSON(h.real, p)
+				vk.AlternateTempDir(func() { codon.WriteCodonJSON(h.real, p) })
 				res = codon.ReadCodonJSON(p)
 				// a second read of the same, unchanged file is another table of its own
 				again := codon.ReadCodonJSON(p)
@@ -583,6 +584,9 @@ func TestSub_history_detached(t *testing.T) { vk.RunRapid(t, subDetached) }
 type CountCase struct {
 	ID  int        `json:"id"`
 	Seq vk.SeqSpec `json:"seq"`
+	// Prior: a sequence with which another detached table is re-weighted immediately before (its result is
+	// discarded): "the result depends only on that call's arguments"
+	Prior string `json:"prior,omitempty"`
 }
 
 func checkCount(c CountCase) error {
@@ -593,6 +597,9 @@ func checkCount(c CountCase) error {
 		return vk.Errf("table %d after a JSON round trip: %v", c.ID, err)
 	}
 	s := c.Seq.String()
+	if c.Prior != "" {
+		_ = codon.ParseCodonJSON(b).OptimizeTable(c.Prior)
+	}
 	res := fresh.OptimizeTable(s)
 	f, err := flatten(res)
 	if err != nil {
@@ -630,6 +637,25 @@ var subCount = vk.Register(&vk.Sub[CountCase]{Name: "count", Check: checkCount,
 	}})
 
 func TestSub_count(t *testing.T) { vk.RunRapid(t, subCount) }
+
+var subCollisions = vk.Register(&vk.Sub[CountCase]{Name: "collisions", Check: checkCount, NonTrivial: func(CountCase) bool { return true }})
+
+// TestSub_collisions re-weights with the two sequences of every checksum-colliding pair (vk.CollidingPairs: distinct
+// equal-length coding sequences with the same FNV, CRC-32, Adler-32 or multiplicative 32-bit checksum), one directly
+// after the other, in both orders and in upper and lower case: the second count must be the second sequence's.
+func TestSub_collisions(t *testing.T) {
+	vk.RunEnum(t, subCollisions, "every checksum-colliding pair of 30-letter coding sequences x both orders x {upper, lower case} x 2 table ids", true, func(yield func(CountCase) bool) {
+		for _, pr := range vk.CollidingPairs() {
+			for _, id := range []int{11, 1} {
+				for _, o := range [][2]string{{pr.A, pr.B}, {pr.B, pr.A}, {strings.ToLower(pr.A), strings.ToLower(pr.B)}, {pr.A, strings.ToLower(pr.B)}} {
+					if !yield(CountCase{ID: id, Seq: vk.SeqSpec{Lit: o[1]}, Prior: o[0]}) {
+						return
+					}
+				}
+			}
+		}
+	})
+}
 
 // ---------------------------------------------------------------------------------------
 // concurrency: goroutines released together re-weight, translate with and read tables of
